@@ -1,0 +1,94 @@
+//go:build verif
+// +build verif
+
+package fileseq
+
+// Native fuzz target for the /verif harness (compiled only with -tags verif):
+// every exported parsing / formatting entry point must return normally for
+// arbitrary byte strings, and a sequence obtained from any accepted string can
+// be queried, formatted with arbitrary templates, split, copied and mutated
+// without panicking. Numbers are capped at 4 digits so that the
+// enumeration-based paths stay fast.
+
+import (
+	"regexp"
+	"testing"
+)
+
+var verifLongNumber = regexp.MustCompile(`\d{5,}`)
+
+func FuzzSequenceAPI(f *testing.F) {
+	for _, s := range []string{
+		"/a/b/foo.1-10x2#.exr", "foo.0001.exr", "/x/y.1-5,7,9-20:3@@.tar.gz", "a.%04d.b", "c.$F3.d", "u.<UDIM>.tif",
+		".ext", "noext", "/", "", "a/b/", "1-5", "#", "foo.-5--1@.e", "v2_001.exr", "1-10y3", "10-1:2", "d1.x/foo",
+	} {
+		for _, t := range []string{"{{dir}}{{base}}{{frange}}{{pad}}{{ext}}", "{{", "{{len}}-{{zfill}}", "{{inverted}}", "{{startf}}{{endf}}", "{{nope}}", "{{dir | printf \"%q\"}}"} {
+			f.Add(s, t, "1-3", 0)
+		}
+	}
+	f.Fuzz(func(t *testing.T, s, tpl, arg string, n int) {
+		if verifLongNumber.MatchString(s) || verifLongNumber.MatchString(arg) || len(s) > 300 || len(tpl) > 200 || len(arg) > 100 {
+			t.Skip()
+		}
+		IsFrameRange(s)
+		PadFrameRange(s, n%9)
+		if fs, err := NewFrameSet(s); err == nil {
+			fs.Len()
+			fs.Frames()
+			fs.Frame(n)
+			fs.Index(n)
+			fs.HasFrame(n)
+			fs.Start()
+			fs.End()
+			fs.FrameRangePadded(n % 9)
+			fs.InvertedFrameRange(n % 9)
+			fs.Invert().Normalize().End()
+			fs.Normalize().Invert().Len()
+			fs.String()
+		}
+		q, err := NewFileSequencePad(s, PadStyle(n%3))
+		if err != nil {
+			return
+		}
+		q.Format(tpl)
+		q.String()
+		q.Len()
+		q.Start()
+		q.End()
+		q.ZFill()
+		q.Index(n)
+		q.Index(0)
+		q.Frame(n)
+		q.Frame(arg)
+		q.Frame([]byte(arg))
+		q.FrameRangePadded()
+		q.InvertedFrameRange()
+		q.InvertedFrameRangePadded()
+		q.PaddingStyle()
+		for _, p := range q.Split() {
+			if p != nil {
+				p.String()
+			}
+		}
+		if c := q.Copy(); c != nil {
+			c.SetDirname(arg)
+			c.SetBasename(arg)
+			c.SetExt(arg)
+			c.SetPadding(arg)
+			c.SetPaddingStyle(PadStyle(n))
+			c.SetFrameRange(arg)
+			c.Format(tpl)
+			c.Index(0)
+			c.Split()
+			c.Copy()
+			c.SetFrameSet(nil)
+			c.String()
+			c.Index(n)
+			c.Split()
+		}
+		q.SetPaddingStyle(PadStyle(n))
+		q.SetFrameRange(arg)
+		q.Format(tpl)
+		FindSequencesInList([]string{s, arg, s + arg}, SingleFiles, FileOption(n%5))
+	})
+}
